@@ -4829,6 +4829,17 @@ fn announce_service_on_intf(
     Ok(false)
 }
 
+/// Appends `suffix` to the label `base`, shortening `base` if needed to keep the
+/// label within the 63 bytes a DNS label can hold.
+fn label_with_suffix(base: &str, suffix: &str) -> String {
+    const MAX_LABEL_LEN: usize = 63;
+    let mut end = base.len().min(MAX_LABEL_LEN.saturating_sub(suffix.len()));
+    while !base.is_char_boundary(end) {
+        end -= 1;
+    }
+    format!("{}{}", &base[..end], suffix)
+}
+
 /// Returns a new name based on the `original` to avoid conflicts.
 /// If the name already contains a number in parentheses, increments that number.
 ///
@@ -4842,7 +4853,7 @@ fn name_change(original: &str) -> String {
         return format!("{original} (2)");
     };
 
-    let mut new_name = format!("{first_part} (2)");
+    let mut new_name = label_with_suffix(first_part, " (2)");
 
     // check if there is already has `(<num>)` suffix.
     if let Some(paren_pos) = first_part.rfind(" (") {
@@ -4855,7 +4866,7 @@ fn name_change(original: &str) -> String {
                                                // Try to parse the number between parentheses
                 if let Ok(number) = first_part[num_start..absolute_end_pos].parse::<u32>() {
                     let base_name = &first_part[..paren_pos];
-                    new_name = format!("{} ({})", base_name, number + 1)
+                    new_name = label_with_suffix(base_name, &format!(" ({})", number + 1))
                 }
             }
         }
@@ -4878,14 +4889,14 @@ fn hostname_change(original: &str) -> String {
         return format!("{original}-2");
     };
 
-    let mut new_name = format!("{first_part}-2");
+    let mut new_name = label_with_suffix(first_part, "-2");
 
     // check if there is already a `-<num>` suffix
     if let Some(hyphen_pos) = first_part.rfind('-') {
         // Try to parse everything after the hyphen as a number
         if let Ok(number) = first_part[hyphen_pos + 1..].parse::<u32>() {
             let base_name = &first_part[..hyphen_pos];
-            new_name = format!("{}-{}", base_name, number + 1);
+            new_name = label_with_suffix(base_name, &format!("-{}", number + 1));
         }
     }
 
